@@ -24,8 +24,12 @@ impl PixelDataReader for UncompressedAdapter {
             .raw_pixel_data()
             .context(decode_error::MissingAttributeSnafu { name: "Pixel Data" })?;
 
+        // each fragment holds one frame (PS3.5 A.4.11);
+        // a frame with an odd number of bytes is followed by a padding byte,
+        // which is not pixel data
+        let frame_size = native_frame_size(src);
         for fragment in pixeldata.fragments {
-            dst.extend_from_slice(&fragment);
+            dst.extend_from_slice(strip_padding(&fragment, frame_size));
         }
 
         Ok(())
@@ -42,9 +46,29 @@ impl PixelDataReader for UncompressedAdapter {
             .frame_pixel_data(frame)
             .context(decode_error::FrameRangeOutOfBoundsSnafu)?;
 
-        dst.extend_from_slice(frame.as_ref());
+        dst.extend_from_slice(strip_padding(frame.as_ref(), native_frame_size(src)));
 
         Ok(())
+    }
+}
+
+/// The number of bytes of one frame in native form,
+/// if the image attributes needed to calculate it are present.
+fn native_frame_size(src: &dyn PixelDataObject) -> Option<usize> {
+    let bytes_per_sample = (src.bits_allocated()? / 8) as usize;
+    Some(
+        src.cols()? as usize
+            * src.rows()? as usize
+            * src.samples_per_pixel()? as usize
+            * bytes_per_sample,
+    )
+}
+
+/// Leave out the padding byte which follows a frame with an odd number of bytes.
+fn strip_padding(fragment: &[u8], frame_size: Option<usize>) -> &[u8] {
+    match frame_size {
+        Some(n) if n % 2 == 1 && fragment.len() == n + 1 => &fragment[..n],
+        _ => fragment,
     }
 }
 
